@@ -14,7 +14,7 @@ import itertools
 import json
 
 from glom import (glom, T, S, A, Val, Spec, Ref, Pipe, Coalesce, And, Or, Switch, Match, Regex, Vars, Let, Invoke, Auto,
-                  GlomError, PathAccessError)
+                  GlomError, PathAccessError, Iter)
 
 from ..engine import R, Sub
 
@@ -492,10 +492,128 @@ def run_menu(idx):
     return R(None, name, steps=1)
 
 
+# ---------------------------------------------------------------------------
+# entry points: one Spec object used through Spec.glom(scope=) / as a sub-spec / as the key of First, over call histories
+
+import itertools as _it
+
+CALL_SCOPES = [None, {'k': 1}, {'j': 2}, {'k': 3, 'j': 4}]
+OWN_SCOPES = [None, {}, {'k': 'own'}, {'j': 'own', 'm': 'own'}]
+VARIANTS = ['reader', 'reader-then-bind']
+
+
+def entry_reader(variant):
+    rd = {'k': Coalesce(S.k, default='unset'), 'j': Coalesce(S.j, default='unset'), 'm': Coalesce(S.m, default='unset')}
+    if variant == 'reader':
+        return rd
+    return (rd, A.globals.r, S(m=Val('late'), k=Val('late')), A.late, S.globals.r)
+
+
+def run_entry(case):
+    kind, own_i, variant, steps = case
+    own = None if OWN_SCOPES[own_i] is None else dict(OWN_SCOPES[own_i])
+    own_before = None if own is None else dict(own)
+    if kind == 'spec':
+        sp = Spec(entry_reader(variant)) if own is None else Spec(entry_reader(variant), scope=own)
+    else:
+        sp = Iter().first(Coalesce(S.k, default=None))
+    n = 0
+    for i, (entry, ci) in enumerate(steps):
+        call = None if CALL_SCOPES[ci] is None else dict(CALL_SCOPES[ci])
+        kw = {} if call is None else {'scope': call}
+        o, c = own or {}, call or {}
+        if kind == 'first':
+            want = 5 if c.get('k') else None      # the key spec reads S.k: every item matches, or none
+            got = glom([5, 7], sp, **kw)
+        else:
+            merged = dict(o, **c) if entry == 'method' else dict(c, **o)
+            want = {name: merged.get(name, 'unset') for name in ('k', 'j', 'm')}
+            got = sp.glom(5, **kw) if entry == 'method' else glom(5, sp, **kw)
+        n += 1
+        if got != want:
+            return R({'expected': 'call %d sees exactly its own scope= and the Spec\'s: %r' % (i, want), 'observed': repr(got),
+                      'history': repr(steps[:i + 1]), 'own': repr(own_before), 'kind': kind, 'variant': variant}, 'leak')
+        if call is not None and call != CALL_SCOPES[ci]:
+            return R({'expected': 'the caller\'s scope mapping is not modified', 'observed': repr(call), 'history': repr(steps[:i + 1])}, 'caller-scope-modified')
+        if own != own_before:
+            return R({'expected': 'the mapping given to Spec(scope=) is not modified: %r' % (own_before,), 'observed': repr(own),
+                      'history': repr(steps[:i + 1])}, 'spec-scope-modified')
+    return R(None, '%s:%d' % (kind, len(steps)), nontrivial=len(steps) > 1, steps=n, tags={kind, variant} | {e for e, _ in steps})
+
+
+def gen_entries(tier):
+    depth = 3 if tier == 'quick' else 4
+    cases = []
+    choices = [(e, c) for e in ('method', 'subspec') for c in range(len(CALL_SCOPES))]
+    for own_i in range(len(OWN_SCOPES)):
+        for variant in VARIANTS:
+            for d in range(1, depth + 1):
+                if d == 4 and (own_i in (0,) or variant == 'reader'):
+                    continue
+                for steps in _it.product(choices, repeat=d):
+                    cases.append(['spec', own_i, variant, [list(x) for x in steps]])
+    for d in range(1, depth + 2):
+        for steps in _it.product(range(len(CALL_SCOPES)), repeat=d):
+            cases.append(['first', 0, 'reader', [['subspec', c] for c in steps]])
+    return cases
+
+
+# ---------------------------------------------------------------------------
+# S(a=.., b=.., c=..) / Let(...): all names of one binder are bound together - no value spec sees a sibling keyword of the same binder
+
+BIND_VALUES = ['lit', 'read-a', 'read-b', 'read-c']
+
+
+def run_simultaneous(case):
+    binder, names, values = case
+    outer = {'a': 'outer-a', 'b': 'outer-b'}
+
+    def vspec(name, v):
+        if v == 'lit':
+            return Val('new-' + name)
+        return Coalesce(getattr(S, v[-1]), default='unbound')
+    kw = {n: vspec(n, v) for n, v in zip(names, values)}       # keyword order = order of *names*
+    b = S(**kw) if binder == 'S' else Let(**kw)
+    spec = (S(a=Val('outer-a'), b=Val('outer-b')), b, {n: Coalesce(getattr(S, n), default='unbound') for n in 'abc'})
+    env = dict(outer)
+    new = {}
+    for n, v in zip(names, values):
+        new[n] = 'new-' + n if v == 'lit' else env.get(v[-1], 'unbound')
+    want = dict(env, **new)
+    want = {n: want.get(n, 'unbound') for n in 'abc'}
+    try:
+        got = glom(0, spec)
+    except Exception as e:
+        got = e
+    if got != want:
+        return R({'expected': repr(want), 'observed': repr(got), 'binder': '%s(%s)' % (binder, ', '.join('%s=%s' % nv for nv in zip(names, values)))}, 'sequential')
+    cross = any(v != 'lit' and v[-1] in names for v in values)
+    return R(None, binder + (':cross' if cross else ':plain'), nontrivial=cross, steps=1, tags={binder})
+
+
+def gen_simultaneous(tier):
+    cases = []
+    for binder in ('S', 'Let'):
+        for k in (2, 3):
+            for names in _it.permutations('abc', k):
+                for values in _it.product(BIND_VALUES, repeat=k):
+                    cases.append([binder, list(names), list(values)])
+    return cases
+
+
 def subs(tier, only=None):
     from ..engine import fast_tracebacks
     fast_tracebacks()
     out = [
+        Sub('entry-points', gen_entries(tier), run_entry,
+            rule='case = history of calls on ONE Spec object (Spec.glom(t, scope=) / glom(t, spec, scope=), four call scopes, four Spec(scope=) '
+                 'mappings, reader with and without in-call binders) and on one Iter().first(key) spec; every call must see exactly its own '
+                 'scope= merged with the Spec\'s, nothing from earlier calls, and neither mapping may be modified',
+            min_nontrivial=3000, min_outcomes=6, required_tags=['spec', 'first', 'method', 'subspec', 'reader-then-bind']),
+        Sub('simultaneous-binding', gen_simultaneous(tier), run_simultaneous,
+            rule='case = (S or Let, 2-3 keyword names in every order, each value a literal or a read of a / b / c): the values are evaluated in '
+                 'the scope before the binder, then bound together',
+            min_nontrivial=300, min_outcomes=4, required_tags=['S', 'Let']),
         Sub('placements', gen_cases(tier), run_case,
             rule='case = (tree shape with a binder at slot p, a reader at slot q, optionally a failing leaf / shadowing binder / second reader at '
                  'slot r; caller scope; Vars prelude); evaluated twice on the same spec object; non-trivial = at least one reader executed',
